@@ -12,6 +12,10 @@
 (*                   corner, down to MaxDepth (BFS; 4 chains per face)     *)
 (*        "edge"   : descendants touching a face boundary (use -simulate)  *)
 (*        "sim"    : all descendants (use -simulate)                       *)
+(*        "chain"  : the anchors are targets <<face, level, i, j>>; from   *)
+(*                   the face cell down to the target all four children    *)
+(*                   of every cell on the way, then the target's children  *)
+(*                   (BFS; deterministic replacement of the simulations)   *)
 (*        "points" : the 26 exact directions (CellIDFromPoint)             *)
 (* Every state is checked against the model theorems below and printed as  *)
 (* a replay case with the answers the specification gives.                 *)
@@ -27,24 +31,26 @@ CONSTANT NbrUp      \* AllNeighbors is evaluated at levels n..n+NbrUp
 
 B30 == Pow2(30)
 B29 == Pow2(29)
-AnchorCell(s) ==
-    FromIJ(CHOOSE x \in s : x \in 0..5,
-           (CHOOSE x \in s : x \in 100..130) - 100,
-           (CHOOSE x \in s : x >= B30 /\ x < B30 + B29) - B30,
-           (CHOOSE x \in s : x >= B30 + B29) - B30 - B29)
+AF(s) == CHOOSE x \in s : x \in 0..5
+ALev(s) == (CHOOSE x \in s : x \in 100..130) - 100
+AI(s) == (CHOOSE x \in s : x >= B30 /\ x < B30 + B29) - B30
+AJ(s) == (CHOOSE x \in s : x >= B30 + B29) - B30 - B29
+AnchorCell(s) == FromIJ(AF(s), ALev(s), AI(s), AJ(s))
 
 PathsUpTo(d) == UNION {[1..l -> 0..3] : l \in 0..d}
 
 (***************************************************************************)
 (* State: <<c>> for a root (anchor) not yet expanded, otherwise            *)
-(* <<anchor level, cell on its full path, <<face, level, i, j, o>>>>.  The *)
-(* coordinate form is carried along incrementally (one table step per      *)
+(* <<anchor level, cell on its full path, <<face, level, i, j, o>>, tgt>>. *)
+(* The coordinate form is carried along incrementally (one table step per  *)
 (* level) so that the geometry operators cost O(1) per state; IJRoundTrip  *)
-(* re-derives it from scratch with IJO on every state.                     *)
+(* re-derives it from scratch with IJO on every state.  tgt is <<>> or,    *)
+(* for Walk = "chain", the <<level, i, j>> of the cell the walk descends   *)
+(* to.                                                                     *)
 (***************************************************************************)
 VARIABLE t
 IsRoot == Len(t) = 1
-IsCell == Len(t) = 3
+IsCell == Len(t) = 4
 IsPoint == Len(t) = 2
 C == t[2]                              \* the model cell on its full path
 N == Len(t[2][2])
@@ -59,20 +65,29 @@ ChildIJO(x, k) ==
 
 OnFaceBoundary(x) == LET m == Pow2(x[2]) - 1 IN x[3] \in {0, m} \/ x[4] \in {0, m}
 AtFaceCorner(x) == LET m == Pow2(x[2]) - 1 IN x[3] \in {0, m} /\ x[4] \in {0, m}
+\* d is an ancestor-or-self of the target
+OnPath(d, tgt) ==
+    /\ tgt # <<>> /\ d[2] <= tgt[1]
+    /\ d[3] = tgt[2] \div Pow2(tgt[1] - d[2]) /\ d[4] = tgt[3] \div Pow2(tgt[1] - d[2])
 
-Init == IF Walk = "points" THEN t \in {<<"P">>} ELSE t \in {<<AnchorCell(s)>> : s \in Anchors}
+Init ==
+    IF Walk = "points" THEN t \in {<<"P">>}
+    ELSE IF Walk = "chain"
+    THEN t \in {<<0, <<AF(s), <<>>>>, <<AF(s), 0, 0, 0, AF(s) % 2>>, <<ALev(s), AI(s), AJ(s)>>>> : s \in Anchors}
+    ELSE t \in {<<AnchorCell(s)>> : s \in Anchors}
 Next ==
     \/ /\ Walk = "points" /\ IsRoot
        /\ t' \in {<<"P", d>> : d \in Dirs}
     \/ /\ Walk # "points" /\ IsRoot
-       /\ LET c == t[1]  r == IJO(c) IN t' = <<Level(c), c, <<c[1], Level(c), r[1], r[2], r[3]>>>>
+       /\ LET c == t[1]  r == IJO(c) IN t' = <<Level(c), c, <<c[1], Level(c), r[1], r[2], r[3]>>, <<>>>>
     \/ /\ IsCell /\ N < MaxDepth
        /\ Walk = "tree" => N - AL < L
+       /\ Walk = "chain" => t[4] # <<>>
        /\ \E k \in 0..3 :
             LET d == ChildIJO(t[3], k)
             IN  /\ Walk = "corner" => AtFaceCorner(d)
                 /\ Walk = "edge" => OnFaceBoundary(d)
-                /\ t' = <<t[1], <<C[1], Append(C[2], k)>>, d>>
+                /\ t' = <<t[1], <<C[1], Append(C[2], k)>>, d, IF OnPath(d, t[4]) THEN t[4] ELSE <<>>>>
 
 (***************************************************************************)
 (* Model theorems (INVARIANTs, evaluated on every generated cell).         *)
@@ -163,12 +178,19 @@ VertexCellsOK ==
 (***************************************************************************)
 AncLevels == {l \in {0, AL \div 2, AL - 1} : 0 <= l /\ l < AL}
 Around == {NextWrap(A), PrevWrap(A)}
+\* leaf cells as limits (the documented use of MaxTile): first and last leaf of the anchor and of
+\* its children, and the leaf after each of them
+LeafPartners ==
+    LET ds == {<<A[1], A[2] \o q>> : q \in PathsUpTo(IF AL < MaxLevel THEN 1 ELSE 0)}
+        ls == UNION {{RangeMin(d), RangeMax(d), LeafSucc(RangeMax(d))} : d \in ds}
+    IN  {x \in ls : x[1] <= 5}
 Partners ==
     {[f |-> A[1], q |-> q, rel |-> 1] : q \in PathsUpTo(PD)}
     \cup {[f |-> g, q |-> <<>>, rel |-> 0] : g \in 0..5}
     \cup {[f |-> x[1], q |-> x[2], rel |-> 0] : x \in Around}
     \cup {[f |-> x[1], q |-> Append(x[2], k), rel |-> 0] : x \in {y \in Around : Level(y) < MaxLevel}, k \in 0..3}
     \cup {[f |-> A[1], q |-> SubSeq(A[2], 1, l), rel |-> 0] : l \in AncLevels}
+    \cup {[f |-> x[1], q |-> x[2], rel |-> 0] : x \in LeafPartners}
 PartnerCell(r) == IF r.rel = 1 THEN <<A[1], A[2] \o r.q>> ELSE <<r.f, r.q>>
 
 PairLaws ==
